@@ -442,10 +442,98 @@ def run_enum_tables(prop, out):
     return n_static
 
 
+def run_js_structs(prop):
+    """C08, emitted-JS half: access facts of the generated struct classes (node probe) against the wasm32
+    repr(C) layout; the reference layout is tied to rustc by a Kani harness."""
+    import jsfront
+    out = {"results": [], "crate_of": {}, "inconclusive": [], "violations": [], "known": [], "coverage": {}}
+    replay_dir = os.path.join(VERIF, "replays", prop)
+    mods = [bridgegen.m0_js()]
+    facts = 0
+    n_static = 0
+    programs = []
+    for mod in mods:
+        d = os.path.join(GEN_ROOT, mod.name)
+        shutil.rmtree(d, ignore_errors=True)
+        os.makedirs(os.path.join(d, "src"))
+        with open(os.path.join(d, "Cargo.toml"), "w") as fh:
+            fh.write(CARGO_TOML % (mod.name, REPO, REPO))
+        shutil.copyfile(os.path.join(REPO, "Cargo.lock"), os.path.join(d, "Cargo.lock"))
+        shutil.copyfile(os.path.join(VERIF, "harness", "bridge_support", "vsupport.rs"), os.path.join(d, "src", "vsupport.rs"))
+        lib = os.path.join(d, "src", "lib.rs")
+        with open(lib, "w") as fh:
+            fh.write(mod.emit_lib())
+        ref = jsfront.Ref(mod)
+        for abi in ("legacy", "spec"):
+            jsdir = os.path.join(d, "js_" + abi)
+            ok, log_ = run_tool("js", lib, jsdir, ["--config", "js.abi=%s" % abi])
+            if not ok:
+                out["inconclusive"].append("diplomat-tool js (js.abi=%s) failed on %s: %s" % (abi, mod.name, log_[-600:]))
+                continue
+            data, err = jsfront.probe(jsdir, mod, "Js", os.path.join(VERIF, "lib"))
+            if data is None:
+                out["inconclusive"].append("JS probe failed for %s (js.abi=%s): %s" % (mod.name, abi, err))
+                continue
+            for sname, res in data["structs"].items():
+                facts += len(res.get("write", {})) + len(res.get("read", {})) + (1 if res.get("args") is not None else 0) + (1 if res.get("recv") else 0)
+            diffs = jsfront.compare(mod, ref, data, abi=abi)
+            for sname, msg in diffs:
+                n_static += 1
+                os.makedirs(replay_dir, exist_ok=True)
+                path = os.path.join(replay_dir, "js_%s_%s_%s_%d.txt" % (mod.name, abi, sname, n_static))
+                with open(path, "w") as fh:
+                    fh.write("DISAGREEMENT between the emitted JS and the wasm32 repr(C) layout (js.abi=%s)\n\nstruct: %s\nfinding: %s\n\n"
+                             "Rust definition: %s\nreference layout (size, align, fields(name, offset, size, align)): %r\n\n"
+                             "Reproduce: cd %s && node verif_jsprobe.mjs verif_spec.json   (prints the access facts of the emitted classes)\n"
+                             % (abi, sname, msg, ", ".join("%s: %s" % (n, t.rust()) for n, t in mod.structs[sname].fields) if sname in mod.structs else "-",
+                                [(f[0], f[2], f[3], f[4]) for f in ref.struct(sname)[2]] if sname in mod.structs else None, jsdir))
+                k = match_known(prop, "static:js:%s:%s" % (abi, sname), [{"description": msg, "function": sname}])
+                if k:
+                    out["known"].append(("static:js:%s:%s" % (abi, sname), k))
+                else:
+                    out["violations"].append(("static:js:%s:%s:%s" % (mod.name, abi, sname), path, msg))
+            programs.append({"module": mod.name, "js.abi": abi, "structs": len(mod.structs), "disagreements": len(diffs)})
+        mirror, text, hname = jsfront.layout_harness(mod, ref)
+        with open(lib, "w") as fh:
+            fh.write(mod.emit_lib(harness_text=text, mirror_text=mirror + "\n#[cfg(kani)]\npub mod m {}"))
+        res, tools, log_, ok, wall = kani_run(d, "bridge", filters=["ffi::" + hname], exact=True, harness_timeout=300,
+                                              target_dir=os.path.join(CACHE, "target-bridge"))
+        if not ok:
+            out["inconclusive"].append("module %s did not build under Kani: %s" % (mod.name, compile_error_summary(log_) or log_[-1500:]))
+        else:
+            r = res.get("ffi::" + hname)
+            if r is None:
+                out["inconclusive"].append("%s: no result" % hname)
+            else:
+                r.name = "%s::%s" % (mod.name, r.name)
+                r.kani_name = "ffi::" + hname
+
+                def replayer(rr, rdir, crate=d):
+                    rep = kani_replay(crate, rr.kani_name, keep_dir=rdir)
+                    rep["path"] = os.path.join(rdir, "%s.playback.txt" % rr.kani_name.replace("::", "__"))
+                    return rep
+                r.replayer = replayer
+                out["results"].append(r)
+    out["coverage"]["js_emitted_code"] = {"modules": programs, "access_facts_compared": facts, "disagreements": n_static,
+                                          "explanation": "facts about the emitted JS (bytes written / read per leaf, interpretation of all-ones and pattern bytes, flattened argument lists, "
+                                                         "receive-buffer size and alignment) obtained by executing the generated classes under node with a recording wasm stub; "
+                                                         "compared with the wasm32 repr(C) reference layout, which a Kani harness proves equal to rustc's layout of 32-bit-pointer mirrors. "
+                                                         "These comparisons are structural (not solver-decided); they are reported as VIOLATION with the probe command as replay."}
+    out["coverage"]["extra_assumptions"] = [
+        "emitted-JS half: node 20 executes the generated ES modules; the wasm module is a recording stub (exports record their arguments, memory is a plain ArrayBuffer)",
+        "argument lists are checked for js.abi=legacy against docs/wasm_abi_quirks.md (direct for <= 2 scalars, padded direct otherwise, padding typed by the preceding field's alignment); "
+        "structs with DiplomatOption fields are excluded from the argument-list comparison; js.abi=spec is checked for reads, writes and receive buffers only",
+        "no wasm32 target is installed, so the real wasm calling convention is not consulted; the reference is the documented rule plus rustc's layout",
+    ]
+    return out
+
+
 def run(prop):
     """Engine entry point used by props.run_property."""
     if prop == "C07":
         return run_dialects(prop)
+    if prop == "C08":
+        return run_js_structs(prop)
     t0 = time.time()
     out = {"results": [], "crate_of": {}, "inconclusive": [], "violations": [], "known": [], "coverage": {}}
     steps = 4 if tier() == "thorough" else 3
